@@ -63,6 +63,11 @@ def main():
                 viol = re.findall(r"^violation: (.*)$", o, re.M)
                 res["checks"][c] = {"exit": rc, "violations": [v[:300] for v in viol][:4], "wall_s": round(time.time()-t0,1)}
                 if rc == 2: res["checks"][c]["fault"] = o[-600:]
+                if rc == 1 and c == meta.get("property"):
+                    # keep the minimised replay of the target check next to the seeded defect
+                    m = re.search(r"VIOLATION property=\S+ replay=(\S+)", o)
+                    if m and os.path.exists(m.group(1)):
+                        shutil.copy(m.group(1), os.path.join(d, f"replay-{c}.json"))
                 print(f"  {sid} {c}: exit {rc} {viol[0][:160] if viol else ''}", flush=True)
         finally:
             sh(f"git -C /repo worktree remove --force {wt}"); shutil.rmtree(wt, ignore_errors=True); shutil.rmtree(out, ignore_errors=True)
